@@ -89,6 +89,8 @@ def generate(seed, tier):
     if mrng.random() < 0.35:
         for fi in range(mrng.randint(1, 2)):
             kind = mrng.choice(("async", "async", "buffered"))
+            if kind == "buffered" and storage_kind == "file" and random.Random("%s/bufflush/%d" % (seed, fi)).random() < 0.6:
+                kind = "bufflush"   # small limit: it flushes, gives the lock back and takes it again in mid-life
             txs = []
             for ti in range(mrng.randint(1, 3)):
                 body = []
@@ -99,7 +101,8 @@ def generate(seed, tier):
                     if wrng.random() < 0.3:
                         body.append(["sleep", wrng.choice((0.01, 0.1, 0.5))])
                 txs.append({"timeout": wrng.choice((0.0, 0.3, 2.0, 30.0)), "delay": wrng.choice((0.05, 0.1)), "body": body})
-            actors.append({"kind": kind, "name": "%s%d" % (kind[0].upper(), fi), "txs": txs,
+            actors.append({"kind": kind, "name": "%s%d" % ("BF" if kind == "bufflush" else kind[0].upper(), fi), "txs": txs,
+                           "limit": random.Random("%s/buflimit/%d" % (seed, fi)).choice((1, 2, 3)),
                            "own_process": mrng.random() < 0.5,
                            # AsyncWriter hands writerargs to every ix.writer() call it makes, the first
                            # attempt and the replay thread's: a timeout among them is an ordinary choice
@@ -237,6 +240,117 @@ class FrontWriter(object):
         s.count("front_commits_" + self.kind)
 
 
+class FlushingBuffered(object):
+    """A BufferedWriter with a small limit among the racing writers: every flush commits, gives the
+    write lock back and takes it again. Another writer may get in between; the re-open then raises
+    LockError out of the call that caused the flush - a legitimate outcome, judged like every other
+    LockError. The application keeps the object (more adds, then close(), retried after a pause until
+    it succeeds). Whatever add_document() accepted must be in the index once close() has returned."""
+
+    def __init__(self, s, name, txs, limit, own_process=True):
+        self.s = s
+        self.name = name
+        self.kind = "bufflush"
+        self.txs = txs
+        self.limit = limit
+        self.own_process = own_process
+        self.violation = None
+        self.attempts = []
+        self.ix = None
+        self.mw = None
+
+    def apply_pending_commit(self):
+        # called at every TOC rename of this task: one flush = one commit of what was buffered
+        if self.mw is not None:
+            self.mw.commit()
+            self.s.commit_log.append((self.s.model.generation, self.name))
+            self.s.ret.setdefault(self.s.model.generation, self.s.k.seq)
+            self.mw = self.s.model.writer()
+            self.s.count("bufflush_flushes")
+
+    def body(self):
+        try:
+            for tx in self.txs:
+                self.run_tx(tx)
+        except Violation as v:
+            self.violation = v
+
+    def _guard(self, fn, what, tx):
+        """Returns True if the call went through, False if it raised a (recorded) LockError."""
+        from whoosh.index import LockError
+        k = self.s.k
+        a, t0 = k.seq, k.time()
+        try:
+            fn()
+            return True
+        except LockError:
+            self.attempts.append({"actor": self.name, "a": a, "b": k.seq, "t0": t0, "t1": k.time(), "outcome": "LockError",
+                                  "timeout": tx.get("timeout", 0.0), "delay": tx.get("delay", 0.1)})
+            self.s.count("bufflush_lockerror_in_" + what)
+            return False
+        except (SimAbort, SimKilled, HarnessError, Violation):
+            raise
+        except Exception as e:  # noqa
+            raise Violation("frontend_raised", "%s: BufferedWriter.%s raised %s: %s" % (self.name, what, type(e).__name__, e),
+                            sig="frontend_raised:bufflush:%s:%s" % (what, exc_sig(e)))
+
+    def run_tx(self, tx):
+        from whoosh.writing import BufferedWriter
+        s = self.s
+        k = s.k
+        if self.ix is None:
+            self.ix = s.actor_storage().open_index()
+        kw = dict(s.cfg.writer_kwargs())
+        kw["timeout"] = tx.get("timeout", 0.0)
+        kw["delay"] = tx.get("delay", 0.1)
+        k.event("step", "bufflush.begin")
+        a, t0 = k.seq, k.time()
+        k.current.actor = self
+        self.mw = None
+        box = {}
+        if not self._guard(lambda: box.setdefault("w", BufferedWriter(self.ix, period=None, limit=self.limit, writerargs=kw)), "__init__", tx):
+            return
+        w = box["w"]
+        self.attempts.append({"actor": self.name, "a": a, "b": k.seq, "t0": t0, "t1": k.time(), "outcome": "acquired",
+                              "timeout": kw["timeout"], "delay": kw["delay"]})
+        hold = [k.seq, None, None, self.name, t0, k.seq, None, a]
+        s.all_holds.append(hold)
+        self.mw = s.model.writer()
+        for op in tx["body"]:
+            k.event("step", "bufflush." + op[0])
+            if op[0] == "add":
+                # the flush this call may cause commits this document too: the model has it first
+                self.mw.add(op[1])
+                self._guard(lambda: w.add_document(**op[1]), "add_document", tx)
+            elif op[0] == "sleep":
+                k.sleep(op[1])
+        closed = False
+        for attempt in range(60):
+            k.event("step", "bufflush.close")
+            if self._guard(lambda: w.close(), "close", tx):
+                closed = True
+                break
+            k.sleep(0.5)
+        hold[1] = k.seq
+        hold[6] = k.time()
+        if not closed:
+            # the lock never came back within 30 simulated seconds: what is still buffered is legitimately unsaved
+            self.mw.cancel()
+            self.mw = None
+            s.count("bufflush_gave_up")
+            return
+        # close() returned: nothing may be left unsaved (documents still pending in the model would
+        # mean close() committed nothing - they are applied so that the final comparison shows the loss)
+        mw, self.mw = self.mw, None
+        if mw is not None and mw.adds:
+            mw.commit()
+            s.commit_log.append((s.model.generation, self.name))
+        elif mw is not None:
+            mw.cancel()
+        s.count("commits")
+        s.count("front_commits_bufflush")
+
+
 class AppWriter(SchedWriter):
     """A plain writer inside an application that has files of its own open: before a
     transaction it may open a few unrelated files and it closes them some transactions later,
@@ -301,6 +415,8 @@ def _plain(s, a):
 
 
 def _front(s, a):
+    if a["kind"] == "bufflush":
+        return FlushingBuffered(s, a["name"], a["txs"], a.get("limit", 2), own_process=a.get("own_process", True))
     f = FrontWriter(s, a["name"], a["kind"], a["txs"], own_process=a.get("own_process", True))
     f.wargs_timeout = a.get("wargs_timeout")
     return f
